@@ -47,6 +47,8 @@ pub struct ExecShared {
     pub ready_now: u64,
     /// F-yield: gates that woke themselves inside their first poll
     pub yields: u64,
+    /// F-migrate: generation of the runtime the macro's future currently lives in
+    pub rt_gen: u32,
     pub spawn_queue: Vec<Spawned>,
     pub current: u32,
     pub active: bool,
@@ -60,6 +62,7 @@ pub static EXEC: Mutex<ExecShared> = Mutex::new(ExecShared {
     stale_wakes: 0,
     ready_now: 0,
     yields: 0,
+    rt_gen: 0,
     spawn_queue: Vec::new(),
     current: 0,
     active: false,
@@ -346,6 +349,37 @@ fn slot_set<T>(slot: &Arc<Mutex<Slot<T>>>, r: Result<T, JoinError>) {
     }
 }
 
+/// as `tokio::runtime::Handle`: names the runtime that was current when it was taken. The simulator has one executor; a
+/// "runtime" is a generation number that F-migrate advances (the old runtime is shut down at that moment).
+#[derive(Clone, Debug)]
+pub struct Handle {
+    gen: u32,
+}
+impl Handle {
+    pub fn current() -> Handle {
+        let e = ex();
+        if !e.active {
+            drop(e);
+            panic!("there is no reactor running, must be called from the context of a Tokio 1.x runtime");
+        }
+        Handle { gen: e.rt_gen }
+    }
+    /// as tokio: spawning on a runtime that has shut down yields a JoinHandle that resolves to a cancelled JoinError
+    pub fn spawn<F>(&self, fut: F) -> JoinHandle<F::Output>
+    where
+        F: Future + Send + 'static,
+        F::Output: Send + 'static,
+    {
+        let cur = ex().rt_gen;
+        if cur == self.gen {
+            spawn(fut)
+        } else {
+            drop(fut);
+            JoinHandle { slot: Arc::new(Mutex::new(Slot { result: Some(Err(JoinError { panic: false, payload: Mutex::new(None) })), waker: None, finished: true })) }
+        }
+    }
+}
+
 pub fn spawn<F>(fut: F) -> JoinHandle<F::Output>
 where
     F: Future + Send + 'static,
@@ -397,6 +431,7 @@ pub struct AsyncRun<R> {
     pub stale_wakes: u64,
     pub ready_now: u64,
     pub yields: u64,
+    pub migrated: bool,
 }
 
 pub const ASYNC_STEP_CAP: u64 = 20_000;
@@ -420,10 +455,11 @@ struct TaskRec {
 /// Run `root` to completion under the chooser. Mode/plan must have been set by the caller
 /// (Mode::Async). The root future's creation must already have happened (and been logged).
 pub fn run_root<R: 'static>(mk: impl FnOnce() -> Pin<Box<dyn Future<Output = R> + 'static>>, mut chooser: Chooser) -> AsyncRun<R> {
-    let (spoll_pm, swake_pm, cancel_at) = {
+    let (spoll_pm, swake_pm, cancel_at, migrate_at) = {
         let g = lock();
-        (g.plan.spoll_pm, g.plan.swake_pm, g.plan.cancel_at)
+        (g.plan.spoll_pm, g.plan.swake_pm, g.plan.cancel_at, g.plan.migrate_at)
     };
+    let mut migrated = false;
     let fault_pm = spoll_pm + swake_pm;
     {
         let mut e = ex();
@@ -434,6 +470,7 @@ pub fn run_root<R: 'static>(mk: impl FnOnce() -> Pin<Box<dyn Future<Output = R> 
         e.stale_wakes = 0;
         e.ready_now = 0;
         e.yields = 0;
+        e.rt_gen = 0;
         e.spawn_queue.clear();
         e.current = 0;
         e.active = true;
@@ -460,6 +497,7 @@ pub fn run_root<R: 'static>(mk: impl FnOnce() -> Pin<Box<dyn Future<Output = R> 
                 stale_wakes: 0,
                 ready_now: 0,
                 yields: 0,
+                migrated: false,
             };
         }
     };
@@ -556,6 +594,19 @@ pub fn run_root<R: 'static>(mk: impl FnOnce() -> Pin<Box<dyn Future<Output = R> 
                 end = Some(AsyncEnd::StepCap);
             }
             break;
+        }
+        if !draining && !root_done && !migrated && migrate_at.map(|m| steps as u32 >= m).unwrap_or(false) && !first_poll {
+            // F-migrate: between two polls, with no spawned task alive, the macro's future moves to another runtime
+            let quiet = ex().alive.iter().skip(1).all(|a| !*a);
+            if quiet {
+                migrated = true;
+                let g = {
+                    let mut e = ex();
+                    e.rt_gen += 1;
+                    e.rt_gen
+                };
+                lock().push(0, Ph::Migrate, 0, g, 0);
+            }
         }
         if !draining && cancel_at == Some(steps as u32) && !root_done {
             // F-cancel: drop the root future here
@@ -711,6 +762,7 @@ pub fn run_root<R: 'static>(mk: impl FnOnce() -> Pin<Box<dyn Future<Output = R> 
         stale_wakes,
         ready_now,
         yields,
+        migrated,
         end: end.unwrap_or(AsyncEnd::Hang),
         value,
         decisions: std::mem::take(&mut chooser.recorded),
